@@ -10,7 +10,7 @@ EDITS = {
                                    ('"("         { cfg_yylval = yytext; return \'(\'; }\n")"         { cfg_yylval = yytext; return \')\'; }', '")"         { cfg_yylval = yytext; return \')\'; }\n"("         { cfg_yylval = yytext; return \'(\'; }')], ["C03", "C15"]),
  "H3_free_null": ("confuse.c", [("				if (comment)\n					free(comment);\n\n				return STATE_EOF;", "				free(comment);\n\n				return STATE_EOF;")], ["C01", "C07"]),
  "H4_getval_shape": ("confuse.c", [("		if (index >= opt->nvalues)\n			val = cfg_addval(opt);\n		else\n			val = opt->values[index];", "		if (index < opt->nvalues)\n			val = opt->values[index];\n		else\n			val = cfg_addval(opt);")], ["C09", "C10"]),
- "H5_print_hoist": ("confuse.c", [("	for (i = 0; cfg->opts[i].name; i++) {\n		cfg_print_filter_func_t pff = cfg->pff ? cfg->pff : fb_pff;\n		if (pff", "	cfg_print_filter_func_t pff = cfg->pff ? cfg->pff : fb_pff;\n\n	for (i = 0; cfg->opts[i].name; i++) {\n		if (pff")], ["C19"]),
+ "H5_print_hoist": ("confuse.c", [("	for (i = 0; cfg->opts[i].name; i++)\n		CFG_VERIF_LOOP(print_cfg)\n	{\n		cfg_print_filter_func_t pff = cfg->pff ? cfg->pff : fb_pff;\n		if (pff", "	cfg_print_filter_func_t pff = cfg->pff ? cfg->pff : fb_pff;\n\n	for (i = 0; cfg->opts[i].name; i++)\n		CFG_VERIF_LOOP(print_cfg)\n	{\n		if (pff")], ["C19"]),
  "H6_dupopt_order": ("confuse.c", [("		dupopts[i].name = NULL;\n		dupopts[i].subopts = NULL;", "		dupopts[i].subopts = NULL;\n		dupopts[i].name = NULL;")], ["C16"]),
  "H8_setnstr_free": ("confuse.c", [("	if (oldstr)\n		free(oldstr);\n	opt->flags |= CFGF_MODIFIED;", "	free(oldstr);\n	opt->flags |= CFGF_MODIFIED;")], ["C07", "C09"]),
  "H9_comment_replace": ("confuse.c", [("				if (comment)\n					free(comment);\n				comment = strdup(cfg_yylval);", "				free(comment);\n				comment = strdup(cfg_yylval);")], ["C15", "C07"]),
@@ -18,9 +18,12 @@ EDITS = {
  "H11_numopts_while": ("confuse.c", [("	for (n = 0; opts && opts[n].name; n++)\n		CFG_VERIF_LOOP(numopts)\n		/* do nothing */ ;", "	n = 0;\n	while (opts && opts[n].name)\n		CFG_VERIF_LOOP(numopts)\n		n++;")], ["C16"]),
  "H12_secidx_strtol": ("confuse.c", [("			if (endptr == title || *endptr != '\\0')\n				i = -1;", "			if (*endptr != '\\0' || endptr == title)\n				i = -1;")], ["C11"]),
  "H13_section_fields_order": ("confuse.c", [("			val->section->line = cfg->line;\n			val->section->errfunc = cfg->errfunc;\n			val->section->title", "			val->section->errfunc = cfg->errfunc;\n			val->section->line = cfg->line;\n			val->section->title")], ["C01", "C06"]),
- "H14_print_other_stdio": ("confuse.c", [("	while (indent--)\n		fprintf(fp, \"  \");", "	while (indent--)\n		fputs(\"  \", fp);"), ("			else\n				fprintf(fp, \"%c\", *str);", "			else\n				fputc(*str, fp);")], ["C19", "C05"]),
- "H15_leaf_hoist": ("confuse.c", [("	unsigned int i;\n\n	for (i = 0; cfg->opts && cfg->opts[i].name; i++) {\n		if (is_set(CFGF_NOCASE, cfg->flags)) {\n			if (strcasecmp(cfg->opts[i].name, name) == 0)", "	unsigned int i;\n	int nocase = is_set(CFGF_NOCASE, cfg->flags);\n\n	for (i = 0; cfg->opts && cfg->opts[i].name; i++) {\n		if (nocase) {\n			if (strcasecmp(cfg->opts[i].name, name) == 0)")], ["C11", "C12"]),
+ "H14_print_other_stdio": ("confuse.c", [("	while (indent--)\n		CFG_VERIF_LOOP(indent)\n		fprintf(fp, \"  \");", "	while (indent--)\n		CFG_VERIF_LOOP(indent)\n		fputs(\"  \", fp);"), ("			else\n				fprintf(fp, \"%c\", *str);", "			else\n				fputc(*str, fp);")], ["C19", "C05"]),
+ "H15_leaf_hoist": ("confuse.c", [("	unsigned int i;\n\n	for (i = 0; cfg->opts && cfg->opts[i].name; i++)\n		CFG_VERIF_LOOP(getopt_leaf)\n	{\n		if (is_set(CFGF_NOCASE, cfg->flags)) {\n			if (strcasecmp(cfg->opts[i].name, name) == 0)", "	unsigned int i;\n	int nocase = is_set(CFGF_NOCASE, cfg->flags);\n\n	for (i = 0; cfg->opts && cfg->opts[i].name; i++)\n		CFG_VERIF_LOOP(getopt_leaf)\n	{\n		if (nocase) {\n			if (strcasecmp(cfg->opts[i].name, name) == 0)")], ["C11", "C12"]),
  "H7_searchpath_else": ("confuse.c", [("	if ((fullpath = cfg_searchpath(p->next, file)) != NULL)\n		return fullpath;", "	fullpath = cfg_searchpath(p->next, file);\n	if (fullpath)\n		return fullpath;")], ["C17"]),
+ "H16_leaf_args_swapped": ("confuse.c", [("			if (strcasecmp(cfg->opts[i].name, name) == 0)\n				return &cfg->opts[i];", "			if (!strcasecmp(name, cfg->opts[i].name))\n				return cfg->opts + i;")], ["C01", "C11"]),
+ "H17_indent_for": ("confuse.c", [("	while (indent--)\n		CFG_VERIF_LOOP(indent)\n		fprintf(fp, \"  \");", "	for (; indent > 0; indent--)\n		CFG_VERIF_LOOP(indent)\n		fprintf(fp, \"  \");")], ["C19"]),
+ "H18_print_no_continue": ("confuse.c", [("		if (pff && pff(cfg, &cfg->opts[i]))\n			continue;\n		result += cfg_opt_print_pff_indent(&cfg->opts[i], fp, pff, indent);", "		if (!pff || !pff(cfg, &cfg->opts[i]))\n			result += cfg_opt_print_pff_indent(cfg->opts + i, fp, pff, indent);")], ["C19"]),
 }
 names = sys.argv[1:] or list(EDITS)
 if subprocess.run(["git", "-C", REPO, "diff", "--quiet"]).returncode != 0:
